@@ -5,7 +5,7 @@ import gen_text
 from execclient import Script, hx, by_index
 from model_lang import Model
 from runner import Failure, Outcome, h64
-from schema import (HAND, schemas, emit_schema, F_NOCASE, F_MULTI, F_TITLE, F_LIST, F_COMMENTS, o_int, o_str, o_list, o_sec,
+from schema import (HAND, schemas, emit_schema, F_IGNORE_UNKNOWN, F_NOCASE, F_MULTI, F_TITLE, F_LIST, F_COMMENTS, o_int, o_str, o_list, o_sec,
                     F_NO_TITLE_DUPES)
 
 HAND["c11"] = [
@@ -32,7 +32,7 @@ class C11:
     id = "C11"
     level = "exploration"
     variants = ("asan",)
-    rule = ("trees from random and hand-built schemas + accepted texts with titles from a pool containing | = ' \\ blanks, "
+    rule = ("trees from random and hand-built schemas (contexts with and without CFGF_NOCASE / CFGF_IGNORE_UNKNOWN) + accepted texts with titles from a pool containing | = ' \\ blanks, "
             "digit-only, empty and one-byte titles; from each tree every option and every section instance x every "
             "qualifier form of every step (unqualified, =index, =title, ='quoted' with both escapes) and, for each such "
             "path, systematically broken variants (separator dropped / leading / trailing / doubled, index = size, -1, 1x, "
@@ -318,7 +318,7 @@ class C11:
     def strategy(self, tier):
         @st.composite
         def case(draw):
-            flags = draw(st.sampled_from([0, 0, 0, F_NOCASE]))
+            flags = draw(st.sampled_from([0, 0, 0, F_NOCASE, F_IGNORE_UNKNOWN, F_IGNORE_UNKNOWN | F_NOCASE]))
             opts = draw(schemas(nocase=bool(flags & F_NOCASE), allow_func=False, allow_ptr=False, allow_deprecated=False, allow_keystrval=False))
             toks = draw(gen_text.text_tokens(opts, flags, max_items=6, allow_unknown=False, bad_p=0.0))
             return {"schema": opts, "flags": flags, "tokens": toks}
@@ -326,6 +326,7 @@ class C11:
 
     def run(self, r):
         r.run_cases([{"schema": "c11", "flags": 0, "text": C11_TEXT}, {"schema": "c11", "flags": F_NOCASE, "text": C11_TEXT},
+                     {"schema": "c11", "flags": F_IGNORE_UNKNOWN, "text": C11_TEXT},
                      {"schema": "c11", "flags": 0, "text": ""}], chunksize=1)
         r.run_cases(self.schema_cases(), chunksize=2)
         r.run_hypothesis(6000 if r.tier == "quick" else 100000)
